@@ -300,6 +300,23 @@ func (c *sidesClient) rel(e *Engine, st *State) (known, prev bool) {
 }
 
 func (c *sidesClient) PreCall(e *Engine, st *State, call *ast.CallExpr, callee *types.Func) *State {
+	// chainSubquery(list, start, source): a new subquery reads the previous one iff this pipeline has produced one,
+	// so the start index it is given is the length the list had when this pipeline was entered
+	inOwnCode := e.Lit == nil
+	for _, fr := range e.Frames() {
+		if !e.P.isClosureDecl(fr.Decl) {
+			inOwnCode = false // inside a named helper: its parameters stand for what the caller passed, decided there
+		}
+	}
+	if callee != nil && fnName(callee) == "chainSubquery" && len(call.Args) == 3 && inOwnCode && e.Reporting() {
+		got := c.val(e, st, call.Args[1])
+		ok := got == "len:v0"
+		key := c.fn + " new subqueries start from this pipeline's own first subquery"
+		e.Site("C03/sides", key, call, ok, "the start index handed to chainSubquery is the length of the list at entry")
+		if !ok {
+			e.Site("C03/sides", key, call, false, "the start index handed to chainSubquery ("+exprStr(call.Args[1])+") is not known to be the length the list had when this pipeline was entered: inside a parenthesised right-hand pipeline the new subquery would read the outer pipeline's last subquery instead of its own table")
+		}
+	}
 	if callee == nil || st.Ext("join:rec") == "" {
 		return nil
 	}
